@@ -99,6 +99,8 @@ __CPROVER_assigns();
 #include "slices.h"      /* first pass: the extracted ScriptError enum and size limits (the contract below names them) */
 #undef C12_PASS_CONSTS
 #define SCRIPT_VERIFY_DISCOURAGE_OP_SUCCESS (1u << BIT_SCRIPT_VERIFY_DISCOURAGE_OP_SUCCESS)   /* script_verify_flags is a bitset over the extracted enum */
+bool nondet_bool(void); size_t nondet_size_t(void); unsigned char nondet_uchar(void);
+#include "../witprog_contracts.h"   /* VerifyWitnessProgram: BIP141 / BIP341 dispatch */
 /* ---- ExecuteWitnessScript: the order of the tapscript pre-checks (BIP342) ----
  * The witness stack is seen through its size and the sizes of its elements, the script through what GetOp decodes at each
  * instruction; both are arbitrary functions of the position, each position read at most once by the code, so a read is a fresh
@@ -106,7 +108,6 @@ __CPROVER_assigns();
  * about the pinned position is a statement about every position. */
 typedef struct { size_t n; bool top_true; } WStack;
 typedef struct { size_t n; } OpStream;
-enum { SIGVERSION_BASE = 0, SIGVERSION_WITNESS_V0 = 1, SIGVERSION_TAPROOT = 2, SIGVERSION_TAPSCRIPT = 3 };
 size_t g_s; bool g_s_ok; unsigned char g_s_op;      /* arbitrary instruction index and what decoding yields there */
 size_t g_e, g_e_size;                               /* arbitrary element index and that element's size */
 size_t g_scan; bool g_scan_ok; unsigned char g_scan_op;   /* last instruction the pre-scan decoded */
@@ -114,8 +115,6 @@ size_t g_elem, g_elem_size;                         /* last element whose size w
 bool g_eval_called, g_eval_result; size_t g_eval_stack_n;
 bool stack_top_true_after; /* truth of the top element EvalScript left */
 bool nondet_bool(void); size_t nondet_size_t(void); unsigned char nondet_uchar(void);
-static inline bool set_error(ScriptError* serror, ScriptError e) { if (serror) *serror = e; return 0; }           /* VERIF_STUB script_error helpers */
-static inline bool set_success(ScriptError* serror) { if (serror) *serror = SCRIPT_ERR_OK; return 1; }
 static inline bool OpStream_GetOp(const OpStream* s, size_t* pc, opcodetype* opcode)      /* VERIF_STUB of CScript::GetOp: one instruction per call */
 { size_t k = *pc; bool ok = (k == g_s) ? g_s_ok : nondet_bool(); unsigned char op = (k == g_s) ? g_s_op : nondet_uchar();
   g_scan = k; g_scan_ok = ok; g_scan_op = op; *opcode = ok ? (opcodetype)op : 0xff; *pc = k + 1; return ok; }
@@ -175,6 +174,7 @@ void h_from_vch(void) { const ByteVec* v; CScriptNum_from_vch(v, nondet_bool(), 
 void h_getint(void) { int r = CScriptNum_getint(nondet_i64()); if (r == INT_MAX) VERIF_REACH_PT("saturated high"); if (r == INT_MIN) VERIF_REACH_PT("saturated low"); }
 void h_CastToBool(void) { const ByteVec* v; g_i = nondet_size_t(); bool r = CastToBool(v); if (r) VERIF_REACH_PT("true"); else VERIF_REACH_PT("false"); }
 void h_CheckMinimalPush(void) { const ByteVec* d; bool r = CheckMinimalPush(d, nondet_int()); if (r) VERIF_REACH_PT("minimal"); else VERIF_REACH_PT("not minimal"); }
+void h_VerifyWitnessProgram(void) { const WitView* w; const ByteVec* pr; ScriptError* se; int wv; unsigned fl; bool p2sh; WITPROG_HARNESS_INPUTS(); g_ews_err = (ScriptError)nondet_uchar(); g_schnorr_err = (ScriptError)nondet_uchar(); VERIF_REACH_ON(VerifyWitnessProgram); VerifyWitnessProgram(w, wv, pr, fl, se, p2sh); }
 void h_ExecuteWitnessScript(void) { const WStack* st; const OpStream* sc; ScriptError* se; g_s = nondet_size_t(); g_s_ok = nondet_bool(); g_s_op = nondet_uchar(); g_e = nondet_size_t(); g_e_size = nondet_size_t(); g_eval_result = nondet_bool(); g_eval_stack_n = nondet_size_t(); unsigned fl; int sv; VERIF_REACH_ON(ExecuteWitnessScript); ExecuteWitnessScript(st, sc, fl, sv, se); }
 void h_IsOpSuccess(void) { bool r = IsOpSuccess(nondet_int()); if (r) VERIF_REACH_PT("op_success"); else VERIF_REACH_PT("ordinary"); }
 /* lemma (contracts only): decoding what serialize emits gives the value back, for every value that fits the 7-byte decoder */
